@@ -63,6 +63,11 @@ pub trait Property: Sync {
     fn shrink_budget(&self) -> usize {
         6000
     }
+    /// seconds after which one case counts as hanging (typical case: < 1 ms; the constructed
+    /// stages with cases of several seconds raise this so that a loaded machine is not a hang)
+    fn hang_secs(&self) -> u64 {
+        60
+    }
     /// Properties over a universe/problem decode the tape into a structured case that
     /// can be minimised structurally and replayed without the generator.
     fn decode_struct(&self, _tape: &[u16]) -> Option<StructCase> {
@@ -407,7 +412,7 @@ pub fn run_property(prop: &dyn Property, opts: &RunOpts, golden: &[Vec<u16>]) ->
         let w2 = watch.clone();
         let id = prop.id();
         let stage = prop.stage();
-        let hang_secs = opts.hang_secs;
+        let hang_secs = opts.hang_secs.max(prop.hang_secs());
         scope.spawn(move || {
             while !w2.stop.load(Ordering::SeqCst) {
                 std::thread::sleep(Duration::from_millis(250));
@@ -425,7 +430,7 @@ pub fn run_property(prop: &dyn Property, opts: &RunOpts, golden: &[Vec<u16>]) ->
                             // repeat counts, and only for properties that promise termination
                             let me = std::env::current_exe().expect("current_exe");
                             let st = std::process::Command::new("timeout")
-                                .args(["-k", "5", "180"])
+                                .args(["-k", "5", &(3 * hang_secs).max(180).to_string()])
                                 .arg(&me)
                                 .args(["replay", path.to_str().unwrap()])
                                 .stdout(std::process::Stdio::null())
@@ -433,7 +438,7 @@ pub fn run_property(prop: &dyn Property, opts: &RunOpts, golden: &[Vec<u16>]) ->
                                 .status();
                             let confirmed = matches!(st.as_ref().map(|s| s.code()), Ok(Some(124)) | Ok(Some(137)));
                             if confirmed && matches!(id, "C04" | "C10" | "C13") {
-                                println!("--- the case does not terminate within 180 s when replayed alone (typical case: < 1 ms)");
+                                println!("--- the case does not terminate within three times the hang threshold when replayed alone (typical case: < 1 ms)");
                                 println!("VIOLATION property={id} replay={}", path.display());
                                 std::process::exit(1);
                             }
